@@ -84,6 +84,24 @@ def observe(case, pattern_tree):
     return 'other:%r' % (r,)
 
 
+def bystanders():
+    """Other StringGrader objects graded in the same process between the observed calls: refusals of every kind on
+    graders that carry their own wrong_msg / invalid_msg.  Nothing they do may show up in another grader's result."""
+    from mitxgraders import StringGrader
+    for kw, text in (
+            (dict(answers='zebra', wrong_msg='BYSTANDER-WRONG'), 'not a zebra'),
+            (dict(accept_any=True, min_length=5, explain_minimums=None, wrong_msg='BYSTANDER-WRONG'), 'ab'),
+            (dict(accept_nonempty=True, explain_minimums=None, wrong_msg='BYSTANDER-WRONG'), ''),
+            (dict(accept_any=True, min_words=3, explain_minimums='msg', wrong_msg='BYSTANDER-WRONG'), 'one two'),
+            (dict(answers='12', validation_pattern='[0-9]+', explain_validation=None, wrong_msg='BYSTANDER-WRONG',
+                  invalid_msg='BYSTANDER-INVALID'), 'abc'),
+            (dict(answers='12', validation_pattern='[0-9]+', explain_validation='msg', invalid_msg='BYSTANDER-INVALID'), 'abc')):
+        try:
+            StringGrader(**kw)(None, text)
+        except Exception:  # noqa
+            pass
+
+
 def replay_states(states, extra):
     from engine import repo
     repo.activate()
@@ -96,6 +114,8 @@ def replay_states(states, extra):
         if c['kind'] == 'seed':
             continue
         n += 1
+        if n % 40 == 1:
+            bystanders()
         tree = None if c['pid'] == 'none' else PATTERNS[c['pid']]
         obs = observe(c, tree)
         keys.add((c['kind'], st['out'], c['pid']))
@@ -211,7 +231,9 @@ def observe_chunk(cases, extra):
     from engine import repo
     repo.activate()
     recs = []
-    for c in cases:
+    for k, c in enumerate(cases):
+        if k % 40 == 0:
+            bystanders()
         tree = c['pattern'] if c['pattern']['k'] != 'none' else None
         c = dict(c)
         c['obs'] = observe(c, tree)
